@@ -31,9 +31,10 @@ confirmation run of the scenario on its own):
   * C18/limiter-probe/...: B + 2 consecutive direct RateLimitWait calls on the hook object the operator built from the
     hook's config obey the same bound (catches a limiter built from the wrong setting/unit without any process lag).
   * C18/unthrottled/...: two hooks without settings with 24 tasks queued alternately (no combination possible) run
-    back to back: median pause between the end of one process and the start of the next <= 50 ms (typically 3 ms;
-    any of the configured limiters would make it >= 90 ms) and, in process, median time between q.get and the return
-    of RateLimitWait <= 25 ms; 100 direct RateLimitWait calls on a hook without settings take < 100 ms.
+    back to back: third quartile of the pauses between the end of one process and the start of the next <= 50 ms
+    (typically 3-10 ms; any limiter of the scale configured here makes every run, or every second run, wait >= 90 ms)
+    and, in process, third quartile of the time between q.get and the return of RateLimitWait <= 25 ms (typically
+    0.03 ms); 100 direct RateLimitWait calls on a hook without settings take < 100 ms (fastest of 3 batches).
 Not a violation (the statement gives an upper bound only): a limiter that is stricter than configured - burst not
 granted, longer interval, one limiter shared by several hooks with settings.  The direct probe reports these as
 DIVERGENCE notes.  Excluded: settings with I <= 0 or B <= 0 (the statement is about configured limits), webhook-triggered
@@ -195,13 +196,23 @@ def build(ctx):
 
 
 def check_c18(ctx):
-    with concurrent.futures.ThreadPoolExecutor(1) as ex:
-        fut = ex.submit(build, ctx)           # the Go build runs while TLC checks the model
-        model_checks(ctx)
-        behs = gen_behaviours(ctx, ctx.pick(220, 1500))
-        binary, hookbin = fut.result()
-    scenarios, nkeys = select(ctx, behs)
-    ctx.log("%d behaviours generated, %d scenarios selected over %d hook configurations" % (len(behs), len(scenarios), nkeys))
+    if getattr(ctx, "replay", None):
+        # --replay <file>: run the scenario of a recorded failure again (no model checking, no generation)
+        data = json.load(open(ctx.replay))
+        sc = (data.get("replay") or {}).get("scenario")
+        if not sc:
+            raise Infra("no scenario in " + ctx.replay)
+        sc["id"] = 0
+        scenarios = [sc]
+        binary, hookbin = build(ctx)
+    else:
+        with concurrent.futures.ThreadPoolExecutor(1) as ex:
+            fut = ex.submit(build, ctx)           # the Go build runs while TLC checks the model
+            model_checks(ctx)
+            behs = gen_behaviours(ctx, ctx.pick(220, 1500))
+            binary, hookbin = fut.result()
+        scenarios, nkeys = select(ctx, behs)
+        ctx.log("%d behaviours generated, %d scenarios selected over %d hook configurations" % (len(behs), len(scenarios), nkeys))
     inp, outp, tr = ctx.path("rl_in.jsonl"), ctx.path("rl_out.jsonl"), ctx.path("rl_trace.ndjson")
     vlib.write_jsonl(inp, scenarios)
     r = vlib.run_bin(ctx, binary, ["run", "-in", inp, "-out", outp, "-trace", tr, "-hookbin", hookbin, "-par", "4"], timeout=ctx.pick(600, 2400))
@@ -232,8 +243,8 @@ def check_c18(ctx):
                 nontrivial.add(json.dumps([sc["hooks"], sc["arrivals"], sc["plans"]], sort_keys=True))
         c = rr.get("control") or {}
         if c.get("gaps"):
-            gaps.append(c["gap_p50_ms"])
-            inproc.append(c["in_wait_p50_ms"])
+            gaps.append(c["gap_p75_ms"])
+            inproc.append(c["in_wait_p75_ms"])
         for f in rr["failures"]:
             ctx.fail(f["sig"], f["detail"], {"scenario": sc, "observed": f.get("data"), "first_run": rr.get("first_run")})
         for n in rr["notes"]:
@@ -248,7 +259,7 @@ def check_c18(ctx):
     if ran * 2 < len(scenarios):
         raise Infra("only %d of %d scenarios could be run: %s" % (ran, len(scenarios), "; ".join(infra)[:1500]))
     ctx.log("%d scenarios on the real operator: %d hook processes, %d starts of throttled hooks, fullest window at %.0f%% of its bound, "
-            "max lag RateLimitWait->process start %.1f ms; hooks without settings: median pause %.1f ms (worst scenario), in-process wait %.2f ms"
+            "max lag RateLimitWait->process start %.1f ms; hooks without settings: third quartile of the pauses %.1f ms (worst scenario), of the in-process wait %.2f ms"
             % (ran, execs, nstarts, fill_max * 100, lag_max, max(gaps or [0]), max(inproc or [0])))
     # (T) the recorded start times against the specification's window formula
     lines = vlib.read_jsonl(tr) if os.path.exists(tr) else []
@@ -277,8 +288,8 @@ def check_c18(ctx):
     ctx.cov["evaluations"] = nstarts
     ctx.cov["distinct_nontrivial"] = len(nontrivial)
     ctx.cov["scenarios"] = {"selected": len(scenarios), "run": ran, "hook_processes": execs, "throttled_starts": nstarts,
-                            "max_window_fill": fill_max, "max_lag_ms": lag_max, "control_gap_p50_ms_worst": max(gaps or [0]),
-                            "control_inproc_wait_p50_ms_worst": max(inproc or [0]), "trace_lines": len(lines),
+                            "max_window_fill": fill_max, "max_lag_ms": lag_max, "control_gap_p75_ms_worst": max(gaps or [0]),
+                            "control_inproc_wait_p75_ms_worst": max(inproc or [0]), "trace_lines": len(lines),
                             "outside_tight_bucket_envelope": conf_notes}
     ctx.assumptions += [
         "golang.org/x/time/rate is trusted; the check is about the wiring: limiter built from settings, one per hook, waited on before every queued run",
